@@ -22,6 +22,9 @@ def quiet():
     import logging
 
     logger.remove()
+    # a sink that discards everything but keeps loguru ACTIVE at every level: with no handler at all loguru returns before it
+    # formats a message, and code that only runs when a message is formatted (as under the default stderr handler) would never run
+    logger.add(lambda message: None, level=0)
     warnings.simplefilter("ignore")
     # "Task was destroyed but it is pending" is recorded as data (VLoop.pending_at_close), not printed
     logging.getLogger("asyncio").setLevel(logging.CRITICAL + 1)
